@@ -91,10 +91,26 @@ def run(sid, checks, save=True):
         return 2
     try:
         rc, out = sh(['git', 'apply', os.path.join(d, 'patch.diff')], cwd=wt)
-        if rc != 0:
-            print(f'{sid}: patch does not apply to /repo HEAD:\n' + out)
-            return 2
         head = sh(['git', '-C', REPO, 'rev-parse', '--short', 'HEAD'])[1].strip()
+        if rc != 0:
+            # a later repair of the repository touched the same lines: three-way merge against the blobs the patch names; kept only if it merges without
+            # conflict AND the author's demonstration still fails on the result (then the refreshed diff replaces the stored one)
+            rc3, out3 = sh(['git', 'apply', '-3', os.path.join(d, 'patch.diff')], cwd=wt)
+            conflict = rc3 != 0 or '<<<<<<<' in sh(['git', 'diff'], cwd=wt)[1]
+            if conflict:
+                print(f'{sid}: patch does not apply to /repo HEAD (three-way merge conflicts):\n' + out)
+                return 2
+            sh(['git', 'reset', '-q'], cwd=wt)
+            rcd, outd = sh(['/venv/bin/python', os.path.join(d, 'demo.py')], cwd=wt, timeout=600)
+            if rcd == 0:
+                print(f'{sid}: merged onto /repo HEAD, but its demonstration no longer fails there (neutralised by a repair?)')
+                meta['rebase_attempt'] = {'repo_head': head, 'demo_rc_with_merged_patch': 0}
+                json.dump(meta, open(os.path.join(d, 'meta.json'), 'w'), indent=1)
+                return 2
+            _, diff = sh(['git', 'diff'], cwd=wt)
+            open(os.path.join(d, 'patch.diff'), 'w').write(diff)
+            meta['rebased_at'] = head
+            print(f'{sid}: patch merged onto /repo HEAD {head} (demo still fails with it), stored diff refreshed')
         for c in checks:
             t = time.time()
             env = dict(os.environ, VERIF_EVIDENCE_DIR=f'/tmp/seedtest-evidence-{os.getpid()}', VERIF_REPO=wt)
